@@ -59,13 +59,13 @@ def run(cmd, timeout=None, env=None, cwd=None, stdout_path=None):
     return p.returncode, out, time.time() - t0
 
 
-_built = False
+_built = set()
 
 
 def build(group=None):
     """Rebuild the harness (and therefore the crates under /repo it links) from the current tree."""
     global _built
-    if _built:
+    if "*" in _built or (group and group in _built):
         return
     lock = f"{HARNESS}/Cargo.lock"
     if not os.path.exists(lock) or os.path.getmtime(lock) < os.path.getmtime(f"{REPO}/Cargo.lock"):
@@ -76,9 +76,11 @@ def build(group=None):
     with open(f"{WORKROOT}/.build.lock", "w") as lk:
         fcntl.flock(lk, fcntl.LOCK_EX)
         rc = 1
+        ws_ok = False
         if not (ONLY_GROUP and group):
             rc, out, dt = run(["cargo", "build", "--offline", "--quiet", "--workspace"], cwd=HARNESS, timeout=3600,
                               env={"CARGO_NET_OFFLINE": "true"})
+            ws_ok = rc == 0
         if rc != 0 and group:
             # another group's driver may not compile against an edited tree: build only ours
             rc, out, dt = run(["cargo", "build", "--offline", "--quiet", "-p", f"kv-{group}"], cwd=HARNESS,
@@ -87,7 +89,10 @@ def build(group=None):
         tail = "\n".join(out.splitlines()[-40:])
         print(tail)
         tool_error("harness build failed (the tree under /repo does not compile with hooks enabled)")
-    _built = True
+    if ws_ok:
+        _built.add("*")
+    else:
+        _built.add(group)       # only this group's driver was (re)built
 
 
 def kverif(group, args, timeout=1800, env=None, allow_fail=False):
